@@ -2054,7 +2054,9 @@ class Uint2Str(BuiltinFunctionT):
         return_t = self.fetch_call_return(expr)
         n_digits = return_t.maxlen
 
-        with args[0].cache_when_complex("val") as (b1, val):
+        # `val` is assigned with `set` below: it has to be a variable even
+        # when the argument is a literal
+        with args[0].cache_when_complex("val", always=True) as (b1, val):
             buf = context.new_internal_variable(return_t)
 
             i = IRnode.from_list(context.fresh_varname("uint2str_i"), typ=UINT256_T)
